@@ -31,7 +31,7 @@
     (v) shape/frame lemmas of the other operations. *)
 From DV Require Import Model.Base Model.NameCheck Model.Parser Model.Header Model.Readers Model.Uncompress
   Model.Mutate Model.Compress Model.Renamer Spec.PacketSpec Spec.RecordSpec Spec.PlainSpec Proofs.Hoare Proofs.HeaderBits Proofs.InsertLemmas Proofs.EdnsPlain Proofs.WalkSkip
-  Proofs.PlainWf Proofs.ViewAfter Proofs.InsertSpec Proofs.HeaderInv Proofs.CursorHist Proofs.DecompressFirst Proofs.FreshHist Proofs.DeleteInv Proofs.SetNameInv Proofs.WalkInv Proofs.RenameCursor Spec.NameSpec Proofs.RenameSpec Proofs.RenameContent Proofs.WalkFresh Proofs.RenameAny Proofs.RenameTotal.
+  Proofs.PlainWf Proofs.ViewAfter Proofs.InsertSpec Proofs.HeaderInv Proofs.CursorHist Proofs.DecompressFirst Proofs.FreshHist Proofs.DeleteInv Proofs.SetNameInv Proofs.WalkInv Proofs.RenameCursor Spec.NameSpec Proofs.RenameSpec Proofs.RenameContent Proofs.WalkFresh Proofs.RenameAny Proofs.RenameTotal Model.Gen Proofs.NameText Proofs.ReadersLabels Proofs.QueryFresh.
 
 Theorem C08_decompression_keeps_edns_summary : forall p v q v',
   bytes_ok p -> parse p = Ok v -> uncompress p = Ok q -> parse q = Ok v' ->
@@ -408,3 +408,34 @@ Example C08_tolerant_rename_history_runs :
   | _ => ([], Err InvalidPacket)
   end = ([0;7; 129;128; 0;1; 0;1; 0;0; 0;0;  2;98;99;1;100;0; 0;1; 0;1;  192;12; 0;1; 0;1; 0;0;0;9; 0;4; 1;2;3;4]%N, Ok tt).
 Proof. vm_compute. reflexivity. Qed.
+
+(** SYNTHESISED packets as starting points: what gen::query returns (class IN; the random transaction id is an argument of the model) is a
+    packet the parser accepts, in pointer-free form (flag cleared, fixed point of decompression), and the object's view - section
+    offsets, EDNS position and option count, extended rcode, version, flags, empty cache - is that of the parse of these bytes; its
+    question is the labels of the text with the type given, there is no record, the header is the id, RD, one question.  This
+    needed the repair a97c4c2 of /repo: before it the text conversion let control characters and backslashes into labels and the
+    packet was refused by the parser (found while proving this).  The advertised payload size is 8192 in the synthesised object
+    and 512 in the parse of a packet without OPT record: C08 does not list that field and the statement leaves it out. *)
+Theorem C08_query_is_fresh_parse : forall tid name qt v, (tid < 65536)%N -> (qt < 65536)%N -> gen_query tid name qt CLASS_IN = Ok v ->
+  exists ls f,
+    Forall label_ok ls /\ (name = dotted ls \/ name = dots ls \/ (name = [46%N] /\ ls = [])) /\
+    pp_packet v = query_header tid ++ wire_of_labels ls ++ be16_bytes qt ++ be16_bytes CLASS_IN /\
+    bytes_ok (pp_packet v) /\ parse (pp_packet v) = Ok f /\ view_of_parse v f (pp_packet v) /\
+    pp_maybe_compressed v = false /\ uncompress (pp_packet v) = Ok (pp_packet v) /\
+    reading (pp_packet v) ls qt [] [] [].
+Proof. exact query_is_fresh_parse. Qed.
+Print Assumptions C08_query_is_fresh_parse.
+
+Example C08_query_vocabulary :
+  (forall tid, query_header tid = be16_bytes tid ++ [1; 0; 0; 1; 0; 0; 0; 0; 0; 0]%N) /\
+  (forall ls, dots ls = flat_map (fun l => l ++ [46%N]) ls) /\
+  (forall l, label_ok l <-> l <> [] /\ length l <= 63 /\ forallb label_char_ok l = true).
+Proof. split; [reflexivity|]. split; [reflexivity|]. intros l. split; intros H; exact H. Qed.
+
+Example C08_query_runs :
+  match gen_query 7 [119; 119; 119; 46; 97; 46; 98]%N 28 CLASS_IN with
+  | Ok v => (pp_packet v, pp_offset_question v, pp_maybe_compressed v)
+  | _ => ([], None, true)
+  end = ([0;7; 1;0; 0;1; 0;0; 0;0; 0;0; 3;119;119;119; 1;97; 1;98; 0; 0;28; 0;1]%N, Some 12, false) /\
+  gen_query 7 [97; 92; 98]%N 28 CLASS_IN = Err InvalidName.
+Proof. split; vm_compute; reflexivity. Qed.
